@@ -50,6 +50,20 @@ func next(name string, width int) uint64 {
 	return v.Value
 }
 
+// Lookup returns the model value of the first input called name (native
+// replay only): scenario realisers read the model by name.
+func Lookup(name string) (uint64, bool) {
+	for _, v := range vector {
+		if v.Name == name {
+			return v.Value, true
+		}
+	}
+	return 0, false
+}
+
+// Fail records a violation found by a native scenario realiser.
+func Fail(msg string) { violations = append(violations, "assert: "+msg) }
+
 // Symbolic reports whether the harness runs under the symbolic executor.
 func Symbolic() bool { return false }
 
